@@ -164,9 +164,9 @@ func c37Check(where string, chain []c37Blk, certs []int, ts int64, expiry *[c37M
 func VerifC37Chain() {
 	c36Table = nil
 	ctx := context.Background()
-	nCerts := verifParam("certs", 2, 2)
-	maxSteps := verifParam("maxSteps", 4, 5)
-	maxPerBlock := verifParam("maxCertsPerBlock", 2, 2)
+	nCerts := verifParam("certs", 2, 3)
+	maxSteps := verifParam("maxSteps", 4, 4)
+	maxPerBlock := verifParam("maxCertsPerBlock", 2, 3)
 	window := verifI64("window")
 	verifAssume(window >= 0)
 	verifAssume(window <= 1<<40)
